@@ -28,7 +28,9 @@ LEVEL_TEXT = ("MATRIX PART ONLY. Lean 4 theorems: the loop of Circuit.as_matrix 
               "Tied to the code by builder histories with interleaved mutations, compared after every call. "
               "The tensor-network view and the two simulators are NOT modelled yet; they are only cross-checked against the matrix "
               "in the oracle (gates only, no control instructions).")
-ASSUMPTIONS = ["tensor-network view (as_tensornet / contract_einsum) and StatevectorSimulator / TensorNetworkSimulator are not covered by "
+ASSUMPTIONS = ["np.einsum accepts at most 52 distinct index labels: single-shot contraction of a circuit network with more bonds raises IndexError "
+               "inside NumPy; such circuits are outside the view comparison (resource limit, counted in the evidence distribution)",
+               "tensor-network view (as_tensornet / contract_einsum) and StatevectorSimulator / TensorNetworkSimulator are not covered by "
                "the Lean model or theorems of this check yet (oracle-level consistency only)",
                "matrix products are rounded by scipy/numpy: comparison with tolerance 1e-9*(1+max|entry|); the model multiplies the exact "
                "rational values of the gates' float matrices and returns entries rounded to multiples of 2^-80 (exact integer arithmetic)",
@@ -239,15 +241,27 @@ def impl(case):
                 expect.append(P)
     out = {"steps": steps, "_handles": init_vals, "_ops": ops_for_model, "_expect": expect, "_cls": cls_of}
     # implementation-side consistency of the four views (final circuit, gates only)
-    out["_views"] = views(circ) if case.get("views") else None
+    # (only when the final circuit is a valid one, i.e. the register matrix of the last step exists: a caller's object that
+    # was made invalid by a mutation - control wire = target wire - and appended afterwards is refused by as_matrix, which the
+    # step comparison above already covers)
+    out["_views"] = views(circ) if case.get("views") and steps and "mat" in steps[-1] else None
     return out
+
+
+WRAP2 = ("RxxGate", "RyyGate", "RzzGate", "ISwapGate")
 
 
 def views(circ):
     qib = _ctx["qib"]
     if not circ.gates or any(isinstance(g, qib.operator.ControlInstruction) for g in circ.gates):
         return None
-    res = {}
+    def classes(g):
+        yield type(g).__name__
+        if hasattr(g, "tgate"):
+            yield from classes(g.tgate)
+        for t in getattr(g, "tgates", []):
+            yield from classes(t)
+    res = {"wrap2": sorted({c for g in circ.gates for c in classes(g) if c in WRAP2})}
     try:
         fl = circ.fields()
         n = sum(f.lattice.nsites for f in fl)
@@ -258,6 +272,10 @@ def views(circ):
         res["M"] = M
     except Exception as e:
         return {"error": f"as_matrix(circ.fields()): {type(e).__name__}: {e}"[:160]}
+    try:
+        res["nbonds"] = int(circ.as_tensornet().num_bonds) + 2 * n   # the simulator adds one tensor per input leg
+    except Exception:
+        res["nbonds"] = 0
     for name, fn in (("tensornet", lambda: np.reshape(qib.tensor_network.tensor_network.to_full_tensor(*circ.as_tensornet().contract_einsum()), (2 ** n, 2 ** n))),
                      ("statevector", lambda: np.asarray(qib.simulator.StatevectorSimulator().run(circ)).reshape(-1)),
                      ("tnsim", lambda: np.asarray(qib.simulator.TensorNetworkSimulator().run(circ)).reshape(-1))):
@@ -341,8 +359,17 @@ def oracle(case, o):
                 bad.append(("C05:views:col0-norm", f"|U e0| = {np.linalg.norm(col0)}"))
             for name, ref in (("tensornet", M), ("statevector", col0), ("tnsim", col0)):
                 x = v[name]
+                if isinstance(x, str) and name in ("tensornet", "tnsim") and x.startswith("IndexError: string index out of range") and v.get("nbonds", 0) > 52:
+                    continue        # NumPy's einsum supports at most 52 distinct labels: resource limit of the single-shot contraction, not a wrong answer
                 if isinstance(x, str):
-                    bad.append((f"C05:views:{name}:raised", x))
+                    if name in ("tensornet", "tnsim") and v.get("wrap2") and x.startswith("AssertionError"):
+                        # known, test-pinned defect (known_findings.json): these classes wrap their 4x4 matrix as a 2-axis tensor,
+                        # Circuit.as_tensornet refuses them (`assert gate_net.num_open_axes == 2*len(prtcl)`)
+                        bad.append((f"C05:tensornet-view:two-qubit-wrap:{v['wrap2'][0]}",
+                                    f"{name}: Circuit.as_tensornet() fails its open-axes assertion for a circuit containing {v['wrap2']} "
+                                    f"(as_tensornet() of these gates wraps the 4x4 matrix as a 2-axis tensor): {x}"))
+                    else:
+                        bad.append((f"C05:views:{name}:raised", x))
                 elif not close(x, ref):
                     bad.append((f"C05:views:{name}:differs-from-matrix", f"{name} view differs from as_matrix(circ.fields()) on {v['n']} wires"))
     return bad
@@ -423,6 +450,12 @@ def gen_cases(tier, rng):
     yield dict(base, handles=[one, two], ops=[["appendCircuit", []], ["append", 0], ["mutate", 0, {"kind": "angle", "slot": 0, "value": 1.1}],
                                               ["prepend", 0], ["append", 1], ["mutate", 1, {"kind": "rebind", "slot": 0, "particles": [[0, 0]]}], ["append", 1]])
     yield dict(base, handles=[bar, one], ops=[["append", 0], ["append", 0], ["append", 1], ["prepend", 0]])
+    # the four classes of the known finding C05:tensornet-view:two-qubit-wrap, one fixed witness each (plus the same circuit shape
+    # with a class that is fine, so that the view comparison itself is exercised deterministically)
+    for cls, kind, extra in (("RxxGate", "rzz", {"theta": 0.25}), ("RyyGate", "rzz", {"theta": -0.5}), ("RzzGate", "rzz", {"theta": 1.5}),
+                             ("ISwapGate", "iswap", {})):
+        g2 = {"gate": dict({"kind": kind, "cls": cls}, **extra), "particles": [[0, 0], [0, 1]]}
+        yield dict(base, field_defs=[[0, 3, 2]], handles=[g2, two], ops=[["append", 1], ["append", 0]], views=True)
     n_hist = 1500 if thorough else 260
     for i in range(n_hist):
         if thorough:
